@@ -163,6 +163,13 @@ def enumerate_faults(tree, validated):
             mutate('type-mismatch:%s/typeDefinition' % name, 'element %d' % (p + 1),
                    lambda t, i=idx[p], other=other: (del_attr(t.kids[i], 'typeLabel'),
                                                      set_attr(t.kids[i], 'typeDefinition', {1: 'DirectSpeakers', 3: 'Objects'}[other])))
+            # one of the two attributes agrees with the ID, the other one contradicts it
+            mutate('type-mismatch:%s/typeDefinition-with-good-typeLabel' % name, 'element %d' % (p + 1),
+                   lambda t, i=idx[p], other=other, td=td: (set_attr(t.kids[i], 'typeLabel', '%04x' % td),
+                                                            set_attr(t.kids[i], 'typeDefinition', {1: 'DirectSpeakers', 3: 'Objects'}[other])))
+            mutate('type-mismatch:%s/typeLabel-with-good-typeDefinition' % name, 'element %d' % (p + 1),
+                   lambda t, i=idx[p], other=other, td=td: (set_attr(t.kids[i], 'typeLabel', '%04x' % other),
+                                                            set_attr(t.kids[i], 'typeDefinition', {1: 'DirectSpeakers', 2: 'Matrix', 3: 'Objects', 4: 'HOA', 5: 'Binaural'}[td])))
     # 4. formatLabel contradicts formatDefinition / neither is given
     for name in ('audioStreamFormat', 'audioTrackFormat'):
         idx = [i for i, k in enumerate(tree.kids) if k.name == name]
